@@ -1,25 +1,97 @@
-use vcore::{Fail, Report};
-use watch::script::Script;
+//! C20 — watch mode produces what a fresh batch compile would, and keeps running.
+//!
+//! Domain: histories of windows of 1-3 file-system actions on a small tree under the project root
+//! (see `gen.rs`), interleaved with garbage collections, applied to a real directory and delivered
+//! by the real notify watcher + debouncer (see `session.rs`).
+//! Oracle (differential): after every window the artifacts and diagnostics computed from the
+//! long-lived watch-mode state equal those of a fresh `CompilerState` on the files now on disk;
+//! after a successful recompile the artifact folder on disk holds exactly those artifacts;
+//! `update_sources` never returns `Err` (the watch loop would return) and nothing panics.
+use std::collections::{BTreeMap, BTreeSet};
+use std::path::PathBuf;
+use std::sync::atomic::{AtomicUsize, Ordering};
+
+use serde_json::{Value, json};
+use vcore::{Args, Fail, Report};
+use watch::histories::{self as hist, ALL_TAGS};
+use watch::script::{Script, op_to_json};
 use watch::session::{Outcome, Session, Stop, compare};
 
-fn run_script(script: &Script, root: &std::path::Path, verbose: bool) -> Result<(), Stop> {
+static NEXT_WORKER: AtomicUsize = AtomicUsize::new(0);
+thread_local! {
+    static WORKER: usize = NEXT_WORKER.fetch_add(1, Ordering::SeqCst);
+}
+
+/// One directory per worker thread, reused for every case (keeps the set of interned paths small).
+fn worker_root(base: &std::path::Path) -> PathBuf {
+    base.join(format!("w{}", WORKER.with(|w| *w))).join("p")
+}
+
+#[derive(Default)]
+struct CaseStats {
+    windows: u64,
+    recompiles: u64,
+    outcome_kinds: BTreeMap<&'static str, u64>,
+    event_kinds: BTreeSet<String>,
+}
+
+fn run_script_once(script: &Script, root: &std::path::Path, verbose: bool, stats: &mut CaseStats) -> Result<(), Stop> {
     let files: Vec<(&str, String)> = script.initial.iter().map(|(p, t)| (p.as_str(), t.clone())).collect();
     let mut s = Session::start(root, &files)?;
     s.verbose = verbose;
+    s.stray = hist::STRAYS.iter().map(|p| p.trim_start_matches("src/__isograph/").to_string()).collect();
     let mut result = Ok(());
     for (i, w) in script.windows.iter().enumerate() {
         if verbose {
-            println!("window {i}: {:?}", w.iter().map(watch::script::op_to_json).map(|j| j.to_string()).collect::<Vec<_>>());
+            println!("window {i}: {}", w.iter().map(|o| op_to_json(o).to_string()).collect::<Vec<_>>().join(" ; "));
         }
         match s.window(w) {
             Ok(rep) => {
+                stats.windows += 1;
+                if rep.compiled.is_some() {
+                    stats.recompiles += 1;
+                }
+                *stats.outcome_kinds.entry(rep.fresh.kind()).or_insert(0) += 1;
+                for e in &rep.events {
+                    let kind = e.split(' ').next().unwrap_or("").to_string();
+                    if !kind.starts_with("Access") {
+                        stats.event_kinds.insert(kind);
+                    }
+                }
                 if verbose {
-                    println!("      changes={} watch={} fresh={}", rep.changes, rep.watch.kind(), rep.fresh.kind());
-                    if let Outcome::Diagnostics(d) = &rep.fresh { for x in d { println!("      fresh diag: {}", x.lines().next().unwrap_or("")); } }
+                    println!("      changes={} compiled={:?} watch={} fresh={}", rep.changes, rep.compiled, rep.watch.kind(), rep.fresh.kind());
                 }
                 if let Some((kind, msg)) = compare(&rep.watch, &rep.fresh) {
                     result = Err(Stop::Fail(Fail::new(format!("diverge:{kind}"), format!("after window {i}: {kind}\n{msg}"))));
                     break;
+                }
+                if let (Some(ok), Outcome::Artifacts(expected)) = (rep.compiled, &rep.watch) {
+                    if !ok {
+                        result = Err(Stop::Fail(Fail::new(
+                            "diverge:artifact-write-error",
+                            format!("after window {i}: artifacts were computed but compile() failed while writing them"),
+                        )));
+                        break;
+                    }
+                    let disk = s.disk_artifacts();
+                    let expected: BTreeMap<String, Vec<u8>> =
+                        expected.iter().filter(|(k, _)| !s.stray.contains(k)).map(|(k, v)| (k.clone(), v.clone().into_bytes())).collect();
+                    if disk != expected {
+                        let mut msg = format!("after window {i}: the artifact folder differs from the artifacts of the recompile\n");
+                        for k in disk.keys().filter(|k| !expected.contains_key(*k)).take(8) {
+                            msg.push_str(&format!("only on disk: {k}\n"));
+                        }
+                        for k in expected.keys().filter(|k| !disk.contains_key(*k)).take(8) {
+                            msg.push_str(&format!("missing on disk: {k}\n"));
+                        }
+                        for (k, v) in &expected {
+                            if disk.get(k).is_some_and(|d| d != v) {
+                                msg.push_str(&format!("stale on disk: {k}\n"));
+                            }
+                        }
+                        result = Err(Stop::Fail(Fail::new("diverge:artifact-folder", msg)));
+                        break;
+                    }
                 }
             }
             Err(stop) => {
@@ -32,20 +104,275 @@ fn run_script(script: &Script, root: &std::path::Path, verbose: bool) -> Result<
     result
 }
 
+/// Run a script; a case stopped by the timing guard is re-run from scratch (a few times).
+fn run_script(script: &Script, root: &std::path::Path, verbose: bool, stats: &mut CaseStats, retries: &mut u64) -> Result<(), Stop> {
+    let mut last = Ok(());
+    for _attempt in 0..4 {
+        let mut st = CaseStats::default();
+        last = run_script_once(script, root, verbose, &mut st);
+        match &last {
+            Err(Stop::Inconclusive(why)) if why == "timing-guard" || why == "barrier-timeout" => {
+                *retries += 1;
+                continue;
+            }
+            _ => {
+                *stats = st;
+                return last;
+            }
+        }
+    }
+    last
+}
+
+/// Root-cause signature: the effect plus the recorded-finding triggers the script contains (if
+/// any), otherwise the detail of the effect.
+fn sign(fail: Fail, script: &Script) -> Fail {
+    let (_, tags) = hist::analyse(script);
+    // a panic is named by where it is raised, whatever the script contains
+    if tags.is_empty() || fail.signature.starts_with("panic:") {
+        return fail;
+    }
+    let effect = fail.signature.split(':').next().unwrap_or("diverge").to_string();
+    let tags: Vec<&str> = tags.into_iter().collect();
+    Fail::new(format!("{effect}:{}", tags.join("+")), format!("[{}] {}", fail.signature, fail.message))
+}
+
+fn exclusions(report: &Report) -> BTreeSet<String> {
+    let include: Vec<String> =
+        std::env::var("VERIF_C20_INCLUDE").unwrap_or_default().split(',').map(|s| s.trim().to_string()).collect();
+    let mut ex = BTreeSet::new();
+    for tag in ALL_TAGS {
+        // a finding names the generator switches that keep it out either in its signature
+        // (`effect:tag+tag`) or in its text (`[switch: tag]`)
+        let listed = report.known_findings().iter().any(|k| {
+            k.signature.split(':').nth(1).is_some_and(|t| t.split('+').any(|x| x == tag)) || k.what.contains(&format!("[switch: {tag}]"))
+        });
+        if listed && !include.iter().any(|i| i == tag || i == "all") {
+            ex.insert(tag.to_string());
+        }
+    }
+    ex
+}
+
+fn inotify_probe(base: &std::path::Path) -> Result<(), String> {
+    let root = base.join("probe/p");
+    let script = Script {
+        initial: watch::project::initial_files().into_iter().map(|(p, t)| (p.to_string(), t)).collect(),
+        windows: vec![vec![watch::session::Op::Write { path: "src/a/probe.ts".into(), data: b"export const k = 1;\n".to_vec() }]],
+    };
+    let mut st = CaseStats::default();
+    let mut retries = 0;
+    match run_script(&script, &root, false, &mut st, &mut retries) {
+        Ok(()) if st.event_kinds.iter().any(|k| k.starts_with("Create")) => Ok(()),
+        Ok(()) => Err("the watcher delivered no Create event for a created file".into()),
+        Err(Stop::Inconclusive(w)) => Err(w),
+        Err(Stop::Fail(f)) => Err(format!("probe failed: {} {}", f.signature, f.message)),
+    }
+}
+
+/// `vcore::run_prop_parallel` with a smaller shrink budget (a case costs ~0.1 s of real waiting).
+fn run_parallel<S, F, M>(report: &Report, name: &str, cases: u32, workers: usize, make: M, f: F) -> Option<(S::Value, Fail)>
+where
+    S: proptest::strategy::Strategy,
+    S::Value: Clone + Send,
+    M: Fn() -> S + Sync,
+    F: Fn(&S::Value) -> Result<(), Fail> + Sync,
+{
+    use proptest::test_runner::{TestCaseError, TestError, TestRunner};
+    let per = cases.div_ceil(workers as u32).max(1);
+    let mut results: Vec<Option<(S::Value, Fail)>> = vec![];
+    std::thread::scope(|scope| {
+        let handles: Vec<_> = (0..workers)
+            .map(|w| {
+                let (make, f) = (&make, &f);
+                let seed = vcore::derive_seed(report.seed, name, w as u64);
+                scope.spawn(move || {
+                    let mut config = vcore::proptest_config(seed, per);
+                    config.max_shrink_iters = 200;
+                    let mut runner = TestRunner::new(config);
+                    let last: std::sync::Mutex<Option<Fail>> = std::sync::Mutex::new(None);
+                    let result = runner.run(&make(), |v| match report.tolerate(f(&v)) {
+                        Ok(()) => Ok(()),
+                        Err(fail) => {
+                            report.freeze();
+                            let msg = fail.signature.clone();
+                            *last.lock().unwrap() = Some(fail);
+                            Err(TestCaseError::fail(msg))
+                        }
+                    });
+                    match result {
+                        Ok(()) => None,
+                        Err(TestError::Fail(_, value)) => {
+                            let fail = match report.tolerate(f(&value)) {
+                                Err(fail) => fail,
+                                Ok(()) => last.lock().unwrap().clone().unwrap_or_else(|| Fail::new("flaky", "did not reproduce")),
+                            };
+                            Some((value, fail))
+                        }
+                        Err(TestError::Abort(reason)) => {
+                            report.note_inconclusive(&format!("proptest aborted: {reason}"));
+                            None
+                        }
+                    }
+                })
+            })
+            .collect();
+        for h in handles {
+            results.push(h.join().unwrap_or_else(|_| vcore::inconclusive("a harness worker thread panicked")));
+        }
+    });
+    results.into_iter().flatten().next()
+}
+
 fn main() {
-    let args = vcore::parse_args();
-    let report = Report::new(&args, "exploration", "tbd");
+    let args: Args = vcore::parse_args();
+    if args.property != "C20" {
+        vcore::inconclusive(&format!("watch: unknown property {}", args.property));
+    }
+    let report = Report::new(
+        &args,
+        "exploration",
+        "histories of 1-6 windows of 1-3 file-system actions (create/modify/delete/rename/move of files and folders, \
+         prefix-sibling folders and files, .md/.txt/binary files, files in folders named __isograph and in the artifact \
+         folder, schema and extension edits, garbage collections) delivered by the real inotify watcher + debouncer; \
+         non-trivial = the history contains a folder operation, a rename/move, or a non-source or non-UTF-8 file below \
+         the project root; distinct by the concrete action script",
+    );
+    report.engine("stateful");
+    report.engine("inproc");
+    report.engine("real notify 7 RecommendedWatcher (inotify) + notify-debouncer-full 0.4, 10 ms timeout, sentinel barrier");
+    report.assumption("Linux inotify as observed in this sandbox; other platforms' event streams are not covered");
+    report.assumption(
+        "a fresh batch compile is CompilerState::new + get_artifact_path_and_content on the same directory; what it would \
+         write is compared with the watch process' artifact folder after each successful recompile (files the harness itself \
+         dropped into the artifact folder are ignored: C18's business)",
+    );
+    report.assumption("events of a window are handed to update_sources as one batch after all actions of the window were applied");
     let verbose = std::env::var("VERIF_VERBOSE").is_ok();
+    if args.rest.iter().any(|a| a == "--print-initial") {
+        let init: Vec<Value> = watch::project::initial_files().into_iter().map(|(p, t)| json!([p, t])).collect();
+        println!("{}", serde_json::to_string(&init).unwrap());
+        std::process::exit(0);
+    }
+    let base = vcore::scratch_base();
+
     if let Some(path) = &args.replay {
         let v = vcore::read_replay(path);
         let script = Script::from_json(&v["input"]).unwrap_or_else(|e| vcore::inconclusive(&format!("bad replay: {e}")));
-        let root = vcore::scratch_base().join("w0/p");
-        match run_script(&script, &root, verbose) {
-            Ok(()) => println!("replay: held"),
-            Err(Stop::Fail(f)) => { report.violation("replay", &f, v["input"].clone()); }
-            Err(Stop::Inconclusive(w)) => println!("replay: inconclusive {w}"),
+        let mut st = CaseStats::default();
+        let mut retries = 0;
+        let (labels, _) = hist::analyse(&script);
+        report.case(if hist::nontrivial(&labels) { Some(&script) } else { None }, &["replay"]);
+        report.case(Some("replay-marker"), &[]);
+        match run_script(&script, &worker_root(&base), verbose, &mut st, &mut retries) {
+            Ok(()) => println!("replay: held ({} windows)", st.windows),
+            Err(Stop::Fail(f)) => {
+                let f = sign(f, &script);
+                report.violation("replay", &f, v["input"].clone());
+            }
+            Err(Stop::Inconclusive(w)) => {
+                report.note_inconclusive(&w);
+                vcore::inconclusive(&format!("replay could not be decided: {w}"));
+            }
         }
-        report.case(Some("replay"), &["replay"]);
         report.finish();
     }
+
+    if let Err(e) = inotify_probe(&base) {
+        vcore::inconclusive(&format!("inotify watcher not usable on {}: {e}", base.display()));
+    }
+
+    // checked-in inputs first: regress-* must hold, known-* must fail with their listed signature
+    report.run_regressions(|input| {
+        let script = Script::from_json(input).map_err(|e| Fail::new("bad-regression-input", e))?;
+        let mut st = CaseStats::default();
+        let mut retries = 0;
+        match run_script(&script, &worker_root(&base), false, &mut st, &mut retries) {
+            Ok(()) => Ok(()),
+            Err(Stop::Fail(f)) => Err(sign(f, &script)),
+            Err(Stop::Inconclusive(w)) => {
+                report.label(&format!("inconclusive-regression:{w}"));
+                Ok(())
+            }
+        }
+    });
+
+    let exclude = exclusions(&report);
+    report.extra("excluded_tags", json!(exclude));
+    let sequences = args.tier.pick(1600u32, 48000u32);
+    let workers = vcore::num_workers();
+    let inconclusive = std::sync::Mutex::new(BTreeMap::<String, u64>::new());
+    let totals = std::sync::Mutex::new((0u64, 0u64, 0u64)); // windows, recompiles, retries
+    let found = run_parallel(
+        &report,
+        "histories",
+        sequences,
+        workers,
+        || hist::ascript(6),
+        |a: &hist::AScript| {
+            let (script, rs) = hist::resolve(a, &exclude);
+            for (k, n) in &rs.excluded {
+                for _ in 0..*n {
+                    report.excluded(k);
+                }
+            }
+            for (k, n) in &rs.dropped {
+                report.label_n(&format!("dropped:{k}"), *n);
+            }
+            if script.windows.is_empty() {
+                report.case::<str>(None, &["empty-after-resolution"]);
+                return Ok(());
+            }
+            let mut st = CaseStats::default();
+            let mut retries = 0;
+            let r = run_script(&script, &worker_root(&base), false, &mut st, &mut retries);
+            {
+                let mut t = totals.lock().unwrap();
+                t.0 += st.windows;
+                t.1 += st.recompiles;
+                t.2 += retries;
+            }
+            let mut labels: Vec<&str> = rs.labels.iter().copied().collect();
+            let kinds: Vec<String> = st.event_kinds.iter().map(|k| format!("event:{k}")).collect();
+            labels.extend(kinds.iter().map(|s| s.as_str()));
+            match r {
+                Ok(()) => {
+                    for (k, n) in &st.outcome_kinds {
+                        report.label_n(&format!("window-outcome:{k}"), *n);
+                    }
+                    report.case(if hist::nontrivial(&rs.labels) { Some(&script) } else { None }, &labels);
+                    report.sample(if hist::nontrivial(&rs.labels) { "nontrivial" } else { "trivial" }, 2, || script.to_json());
+                    Ok(())
+                }
+                Err(Stop::Inconclusive(w)) => {
+                    *inconclusive.lock().unwrap().entry(w).or_insert(0) += 1;
+                    report.case::<str>(None, &["inconclusive-case"]);
+                    Ok(())
+                }
+                Err(Stop::Fail(f)) => {
+                    report.case(if hist::nontrivial(&rs.labels) { Some(&script) } else { None }, &labels);
+                    Err(sign(f, &script))
+                }
+            }
+        },
+    );
+    if let Some((a, fail)) = found {
+        let (script, _) = hist::resolve(&a, &exclude);
+        report.violation("histories", &fail, script.to_json());
+    }
+    report.unfreeze();
+    let t = totals.lock().unwrap();
+    report.extra("windows_executed", json!(t.0));
+    report.extra("recompiles", json!(t.1));
+    report.extra("timing_guard_retries", json!(t.2));
+    let inc = inconclusive.lock().unwrap();
+    report.extra("inconclusive_cases", json!(*inc));
+    let n_inc: u64 = inc.values().sum();
+    if n_inc * 5 > report.evaluations() {
+        report.note_inconclusive(&format!("{n_inc} of {} cases could not be decided (timing guard / barrier)", report.evaluations()));
+        report.extra("too_many_inconclusive", Value::Bool(true));
+    }
+    drop(t);
+    drop(inc);
+    report.finish();
 }
